@@ -489,7 +489,7 @@ func runC12(r *core.Run) {
 		return
 	}
 	// --- controlled interleavings
-	nsc := r.N(36, 360)
+	nsc := r.N(36, 300)
 	per := r.N(250, 1200)
 	r.Floor("interleavings", int64(nsc*per/4))
 	r.ForEach("conc", nsc, 0, func(c *core.Case) {
